@@ -59,7 +59,11 @@ pub fn targets<T: Elem>(forms: Forms, filter: impl Fn(&Routine<T>) -> bool) -> V
             }
             for (m, _) in &masks {
                 let lane = vals::lanes::<T>(mask_register_bytes(*m));
-                out.push(Target { r, mask: Some(*m), lane });
+                out.push(Target {
+                    r,
+                    mask: Some(*m),
+                    lane,
+                });
             }
         } else {
             if forms == Forms::Safe {
@@ -77,7 +81,10 @@ pub fn targets<T: Elem>(forms: Forms, filter: impl Fn(&Routine<T>) -> bool) -> V
 pub fn group_by_name<T: Elem>(ts: Vec<Target<T>>) -> Vec<Vec<Target<T>>> {
     let mut groups: Vec<Vec<Target<T>>> = Vec::new();
     for t in ts {
-        if let Some(g) = groups.iter_mut().find(|g| g[0].r.name == t.r.name && g[0].mask == t.mask) {
+        if let Some(g) = groups
+            .iter_mut()
+            .find(|g| g[0].r.name == t.r.name && g[0].mask == t.mask)
+        {
             g.push(t);
         } else {
             groups.push(vec![t]);
@@ -95,7 +102,11 @@ pub struct Tally {
 
 impl Tally {
     pub fn new() -> Tally {
-        Tally { calls: 0, len_buckets: [0; 6], extra: Vec::new() }
+        Tally {
+            calls: 0,
+            len_buckets: [0; 6],
+            extra: Vec::new(),
+        }
     }
     #[inline]
     pub fn note_len(&mut self, n: usize) {
@@ -118,7 +129,14 @@ impl Tally {
         }
     }
     pub fn flush<T: Elem>(&mut self, ctx: &mut Ctx, t: &Target<T>) {
-        const NAMES: [&str; 6] = ["len:0", "len:1-7", "len:8-63", "len:64-511", "len:512-4095", "len:4096+"];
+        const NAMES: [&str; 6] = [
+            "len:0",
+            "len:1-7",
+            "len:8-63",
+            "len:64-511",
+            "len:512-4095",
+            "len:4096+",
+        ];
         for (i, n) in self.len_buckets.iter().enumerate() {
             if *n > 0 {
                 ctx.p.bump(NAMES[i], *n);
@@ -239,7 +257,9 @@ impl<'a, T: Elem> Run<'a, T> {
     }
 
     pub fn finish(self) {
-        let Run { ctx, mut tally, t, .. } = self;
+        let Run {
+            ctx, mut tally, t, ..
+        } = self;
         tally.flush(ctx, &t);
     }
 }
@@ -261,7 +281,9 @@ pub fn map_sweep<T: Elem>(ctx: &mut Ctx, t: Target<T>, nan: bool) {
         for _ in 0..reps {
             let a: Vec<T> = (0..len).map(|_| vals::mixed(&mut rng, &bounds, nan)).collect();
             let b: Vec<T> = if is_vec {
-                (0..len).map(|_| divisor_fix(&t, vals::mixed(&mut rng, &bounds, nan))).collect()
+                (0..len)
+                    .map(|_| divisor_fix(&t, vals::mixed(&mut rng, &bounds, nan)))
+                    .collect()
             } else {
                 Vec::new()
             };
@@ -274,7 +296,16 @@ pub fn map_sweep<T: Elem>(ctx: &mut Ctx, t: Target<T>, nan: bool) {
     if int_div {
         let mut zl: Vec<usize> = match t.r.dims {
             Some(d) => vec![d],
-            None => vec![0, 1, 2, t.lane, t.lane + 1, 8 * t.lane, 8 * t.lane + t.lane + 1, pack],
+            None => vec![
+                0,
+                1,
+                2,
+                t.lane,
+                t.lane + 1,
+                8 * t.lane,
+                8 * t.lane + t.lane + 1,
+                pack,
+            ],
         };
         zl.sort_unstable();
         zl.dedup();
@@ -287,8 +318,9 @@ pub fn map_sweep<T: Elem>(ctx: &mut Ctx, t: Target<T>, nan: bool) {
                     if pos >= len {
                         continue;
                     }
-                    let mut b: Vec<T> =
-                        (0..len).map(|_| divisor_fix(&t, vals::mixed(&mut rng, &bounds, false))).collect();
+                    let mut b: Vec<T> = (0..len)
+                        .map(|_| divisor_fix(&t, vals::mixed(&mut rng, &bounds, false)))
+                        .collect();
                     b[pos] = T::zero();
                     run.go(T::one(), a.clone(), b);
                     run.tally.add("class:zero_divisor", 1);
@@ -400,7 +432,10 @@ pub fn map_sweep<T: Elem>(ctx: &mut Ctx, t: Target<T>, nan: bool) {
                     let (x, y) = if (i as usize) < nb * nb {
                         (bounds[i as usize / nb], bounds[i as usize % nb])
                     } else {
-                        (vals::mixed(&mut rng, &bounds, nan), vals::mixed(&mut rng, &bounds, nan))
+                        (
+                            vals::mixed(&mut rng, &bounds, nan),
+                            vals::mixed(&mut rng, &bounds, nan),
+                        )
                     };
                     a.push(x);
                     b.push(divisor_fix(&t, y));
@@ -420,7 +455,11 @@ pub fn map_sweep<T: Elem>(ctx: &mut Ctx, t: Target<T>, nan: bool) {
                     if run.ctx.out_of_time() {
                         break;
                     }
-                    let v = if (vi as usize) < nb { bounds[vi as usize] } else { vals::mixed(&mut rng, &bounds, nan) };
+                    let v = if (vi as usize) < nb {
+                        bounds[vi as usize]
+                    } else {
+                        vals::mixed(&mut rng, &bounds, nan)
+                    };
                     if int_div && v == T::zero() {
                         continue;
                     }
@@ -442,4 +481,3 @@ pub fn map_sweep<T: Elem>(ctx: &mut Ctx, t: Target<T>, nan: bool) {
     }
     run.finish();
 }
-
